@@ -1183,7 +1183,7 @@ maxterms, or set zeroprec."""
         sign, man, exp, bc = re
         mag = exp+bc
         # |x| < 0.5
-        if mag < 0:
+        if man and mag < 0:
             n = 0
             re_dist = mag
         elif man:
